@@ -126,6 +126,9 @@ def r052(model, rep, ck):
 
 
 
+from .common_ops import flat_method
+
+
 def fk_core(rep, rule, fk):
     """Arm.FK on every path: FKinSpace(home tool pose, space screws, v) with v the argument itself (only under protect) or thetaProtector(argument);
     the stored joint vector is made from that same v; the stored tool pose is the kernel's result.  Shared by C05 (R05.3), C07 and C13
@@ -168,6 +171,27 @@ def fk_core(rep, rule, fk):
            'on some path FKinSpace receives joints that were not clamped by thetaProtector although protect is false', line=line_c)
     rep.ob(rule, fk, 'self._theta stored from the evaluated vector', theta_ok, 'FK does not store the joint vector it evaluated')
     rep.ob(rule, fk, 'stored tool pose is the FKinSpace result', pose_ok, 'the pose FK stores is not the product-of-exponentials result')
+    clamp_rule(rep, rule, fk.cls)
+
+
+def clamp_rule(rep, rule, arm):
+    """Arm.thetaProtector is the clamp to the stored limits and nothing else: decided by exhaustive case analysis over the order cells of
+    (joint value, lower limit, upper limit, constants in the code) - see sa/rules/clampcase.py.  -> result dict of the analysis"""
+    from .clampcase import analyse
+    tp = arm.methods.get('thetaProtector') if arm is not None else None
+    if tp is None:
+        raise AnalysisError('anchor vanished: Arm.thetaProtector')
+    flat = flat_method(arm, 'thetaProtector')
+    res = analyse(flat.node, tp.params[1])
+    if res['unknown'] is not None and not res['wrong']:
+        rep.ob(rule, tp, 'thetaProtector is an order-based clamp (comparisons, masks, np.clip / minimum / maximum)', False,
+               'construct outside the clamp fragment: %s' % res['unknown'], shape=True)
+        return res
+    wrong = res['wrong']
+    rep.ob(rule, tp, 'thetaProtector(theta) = theta where inside the stored limits, the violated limit elsewhere (all %d order cells)' % res['cells'], not res['wrong'],
+           'thetaProtector is not the clamp to [joint_mins, joint_maxs]: %s - FK (which clamps unless protect) then evaluates, and stores, another configuration than '
+           'the in-limit one it was given, or lets an out-of-limit one through' % (wrong[0] if wrong else ''))
+    return res
 
 def r053(model, rep, ck):
     rep.rule('R05.3', 'FK: clamp dominates use on the non-protect path; FKinSpace(home, screws, theta); stored joints and stored '
@@ -178,96 +202,7 @@ def r053(model, rep, ck):
         raise AnalysisError('anchor vanished: Arm.FK')
     theta = fk.params[1]
     fk_core(rep, 'R05.3', fk)
-    # the clamp itself: theta[where(theta < mins)] = mins[where(theta < mins)], same for > maxs; returns theta
-    tp = arm.methods.get('thetaProtector')
-    if tp is None:
-        raise AnalysisError('anchor vanished: Arm.thetaProtector')
-    th = tp.params[1]
-    stores = [n for n in walk_own(tp.node) if isinstance(n, ast.Assign) and isinstance(n.targets[0], ast.Subscript) and src(n.targets[0].value) == th]
-    FLIP = {ast.Lt: ast.Gt, ast.LtE: ast.GtE, ast.Gt: ast.Lt, ast.GtE: ast.LtE}
-    BOUNDS = {'self.joint_mins': 'below', 'self.joint_maxs': 'above'}
-
-    def unsl(e):
-        while isinstance(e, ast.Subscript) and isinstance(e.slice, ast.Slice):
-            e = e.value
-        return src(e)
-
-    def cond(e):
-        """(side, bound field) of an out-of-range test `theta < mins` / `maxs < theta` ...; None when not of that shape."""
-        if isinstance(e, ast.Call) and src(e.func) in ('np.where', 'np.nonzero', 'np.flatnonzero') and len(e.args) == 1:
-            e = e.args[0]
-        if not (isinstance(e, ast.Compare) and len(e.ops) == 1 and type(e.ops[0]) in FLIP):
-            return None
-        l, r, op = unsl(e.left), unsl(e.comparators[0]), type(e.ops[0])
-        if r == th and l in BOUNDS:
-            l, r, op = r, l, FLIP[op]
-        if l != th or r not in BOUNDS:
-            return None
-        return ('below' if op in (ast.Lt, ast.LtE) else 'above', r)
-
-    seen_bounds = set()
-    il_tp = Inliner(tp)
-    for n in stores:
-        v = il_tp.expand(n.value)
-        c1 = cond(il_tp.expand(n.targets[0].slice))
-        c2 = cond(v.slice) if isinstance(v, ast.Subscript) else None
-        if c1 is None or c2 is None:
-            rep.unresolved_item('R05.3', '%s:%d' % (tp.module.relpath, n.lineno), 'clamp statement not of the form theta[out-of-range] = bound[out-of-range]: %s' % src(n)[:80])
-            continue
-        ok = c1 == c2 and BOUNDS[c1[1]] == c1[0] and unsl(v.value) == c1[1]
-        if ok:
-            seen_bounds.add(c1[1])
-        rep.ob('R05.3', tp, src(n)[:90], ok, 'joints %s %s are replaced by elements of %s selected where theta is %s %s: the clamp must replace exactly the '
-               'out-of-range joints by the bound they violate' % (c1[0], c1[1], unsl(v.value) if isinstance(v, ast.Subscript) else src(v)[:30], c2[0], c2[1]), line=n.lineno)
-        # a guard around the clamp may only skip it when nothing is out of range
-        par = tp.module.parents.get(n)
-        if isinstance(par, ast.If) and n in par.body:
-            t = par.test
-            if isinstance(t, ast.BoolOp):
-                parts = [cond(x.args[0]) if isinstance(x, ast.Call) and src(x.func) in ('np.any', 'any') and len(x.args) == 1 else None for x in t.values]
-                if None in parts:
-                    rep.unresolved_item('R05.3', '%s:%d' % (tp.module.relpath, par.lineno), 'guard of the clamp not recognised')
-                else:
-                    okg = isinstance(t.op, ast.Or) and c1 in parts
-                    rep.ob('R05.3', tp, 'guard admits the clamp of %s' % c1[1], okg,
-                           'the clamp of %s runs only when `%s` holds, which is false for a vector that violates only this limit' % (c1[1], src(t)[:100]), line=par.lineno)
-            else:
-                one = cond(t.args[0]) if isinstance(t, ast.Call) and src(t.func) in ('np.any', 'any') and len(t.args) == 1 else None
-                if one is None:
-                    rep.unresolved_item('R05.3', '%s:%d' % (tp.module.relpath, par.lineno), 'guard of the clamp not recognised')
-                else:
-                    rep.ob('R05.3', tp, 'guard admits the clamp of %s' % c1[1], one == c1, 'the clamp of %s is guarded by a test of %s' % (c1[1], one[1]), line=par.lineno)
-    # an early `return theta` before the clamps may only be taken when nothing is out of range
-    first_store = min([n.lineno for n in stores] or [10 ** 9])
-    for g in [n for n in tp.body() if isinstance(n, ast.If) and n.lineno < first_store and n.body and isinstance(n.body[-1], ast.Return) and not n.orelse]:
-        t = il_tp.expand(g.test)
-
-        def any_cond(x):
-            return cond(x.args[0]) if isinstance(x, ast.Call) and src(x.func) in ('np.any', 'any') and len(x.args) == 1 else None
-        parts, form = None, None
-        if isinstance(t, ast.UnaryOp) and isinstance(t.op, ast.Not) and isinstance(t.operand, ast.BoolOp):
-            parts, form = [any_cond(x) for x in t.operand.values], ('not-or' if isinstance(t.operand.op, ast.Or) else 'not-and')
-        elif isinstance(t, ast.BoolOp) and all(isinstance(x, ast.UnaryOp) and isinstance(x.op, ast.Not) for x in t.values):
-            parts, form = [any_cond(x.operand) for x in t.values], ('not-or' if isinstance(t.op, ast.And) else 'not-and')
-        if parts is None or None in parts:
-            rep.unresolved_item('R05.3', '%s:%d' % (tp.module.relpath, g.lineno), 'early return of thetaProtector not recognised: ' + src(g.test)[:80])
-            continue
-        okg = form == 'not-or' and set(parts) == {('below', 'self.joint_mins'), ('above', 'self.joint_maxs')}
-        rep.ob('R05.3', tp, 'early return only when no joint is out of range', okg,
-               'the vector is returned unclamped when `%s` holds, which is also true for a vector that violates %s' % (
-                   src(g.test)[:90], 'only one of the limits' if form == 'not-and' else 'a limit that the test does not look at'), line=g.lineno)
-    rets = [n for n in walk_own(tp.node) if isinstance(n, ast.Return)]
-    rets = [r_ for r_ in rets if r_.lineno >= first_store] or rets
-    clip = [c for c in walk_own(tp.node) if isinstance(c, ast.Call) and src(c.func) in ('np.clip', 'numpy.clip') and len(c.args) == 3]
-    if clip and not stores:
-        c = clip[0]
-        ok = unsl(c.args[0]) == th and unsl(c.args[1]) == 'self.joint_mins' and unsl(c.args[2]) == 'self.joint_maxs'
-        rep.ob('R05.3', tp, src(c)[:90], ok, 'np.clip must clamp the joint vector between joint_mins and joint_maxs', line=c.lineno)
-    elif stores:
-        rep.ob('R05.3', tp, 'both limits clamped, clamped vector returned', seen_bounds == set(BOUNDS) and len(rets) == 1 and src(rets[0].value) == th,
-               'clamp covers %s and returns %s' % (sorted(seen_bounds), src(rets[0].value) if rets else '?'))
-    else:
-        rep.ob('R05.3', tp, 'both limits clamped, clamped vector returned', False, 'thetaProtector no longer clamps the joint vector')
+    # the clamp itself is decided inside fk_core (clamp_rule: case analysis over order cells)
     for name in ('FKJoint', 'FKLink'):
         fi = arm.methods.get(name)
         if fi is None:
@@ -687,3 +622,10 @@ def r0510(model, rep, ck):
                    'tool-to-joint frame in getJointTransforms())' % fld, line=line)
     rep.count('R05.10 derived fields of refresh helpers', n)
     rep.floor('R05.10', 'derived fields of refresh helpers', n, 1)
+    # ---------------------------------------------------------------- R05.14
+    # queries with defaulted joints refer to the stored configuration AND the current kinematic model: the body screws that jacobianBody()
+    # reads are re-derived after every write of the home tool pose / space screws (same typestate as C06 R06.1)
+    from .c06 import body_screw_freshness
+    body_screw_freshness(model, rep, 'R05.14')
+    rep.rules['R05.14'] = ('body screw list re-derived from the CURRENT home pose and space screws after the last write of either, on every path of every public '
+                           'method (jacobianBody() and the body-frame statics describe the tool the arm reports)')
